@@ -91,7 +91,7 @@ PROPS = {
 
 # ---- manifest texts ------------------------------------------------------------------------------------
 META = {
-    "_hook_commits": [],
+    "_hook_commits": ["f6c346a"],
     "C18": {
         "text": "Theorems C18_roundtrip and C18_union (all permission trees with unique keys, all finite families, all paths; structural induction, no bound) over the Gallina model of auth.go's MarshalJSON/UnmarshalJSON/MergeAllowedFields; the model is tied to /repo on every run by evaluating it on random trees, JSON inputs (incl. malformed) and families and comparing with what the real exported API returned; the property is also evaluated directly on the observed outputs.",
         "note": "Trusted: Coq kernel + vm_compute; the hand model's reading of encoding/json's decode-over-existing-value; the Go harness and driver. No axioms. FilterSchema/filterFields agreement (third clause) is checked in C03/C17's schema-level checks, theorem pending.",
